@@ -4,7 +4,7 @@ import os, re, json, glob
 V = os.path.dirname(os.path.dirname(os.path.abspath(__file__)))
 sweep = {}
 for l in open(os.path.join(V, 'seeded', 'SWEEP.txt')):
-    m = re.match(r'(C\d\d-m\d) (.*)', l.strip())
+    m = re.match(r'(C\d\d-m\w) (.*)', l.strip())
     if m: sweep[m.group(1)] = m.group(2)
 NEUTRALISED = {
  'C05-m1': 'needed the positional renumbering of object folders in _saveXmlObjects, removed by fix 2b3705d; with the change applied the property holds (demo passes)',
